@@ -55,6 +55,11 @@ template<class F> static void in_child(F body) {
   }
 }
 
+// Paint the part of the stack the next call will use with a given double: a local that the library reads before writing it
+// then has a reproducible value (negative / positive / NaN) instead of whatever the previous call left there.
+__attribute__((noinline)) static void paint_stack(double v) {
+  volatile double a[2048]; for (int i = 0; i < 2048; ++i) a[i] = v; asm volatile("" : : "r"(a) : "memory");
+}
 // ellipsoids: 0 = WGS84, 1 = f 0.02 (|f| > 0.01: the Newton correction of the series line is active), 2 = prolate −0.02, 3 = sphere
 static const double ELLF[4] = {1 / 298.257223563, 0.02, -0.02, 0};
 static int ellOf(const std::string& sv) { return sv.size() > 1 ? std::min(3, std::max(0, sv[1] - '0')) : 0; }
@@ -184,6 +189,7 @@ template<class Geod> static void inverse_values(const Geod& g, const unsigned* f
   double ref[7] = {s, a1, a2, m, M12, M21, S};
   for (unsigned sel = 1; sel < 512; sel += 1) { if (sel & 0x10) continue;      // all 2^7 masks, with and without LONG_UNROLL
     unsigned om = build(fl, sel); double v[7] = {SENT[0], SENT[1], SENT[2], SENT[3], SENT[4], SENT[5], SENT[6]};
+    paint_stack(sel % 3 == 0 ? -1.0 : sel % 3 == 1 ? 1.0 : Math::NaN());
     double b12 = g.GenInverse(lat1, lon1, lat2, lon2, om, v[0], v[1], v[2], v[3], v[4], v[5], v[6]);
     if (!same(b12, a12)) bad("value-depends-on-mask", "GenInverse a12 depends on the mask (selection " + std::to_string(sel) + ": " + hx(b12) + " vs " + hx(a12) + ")");
     for (int i = 0; i < 7; ++i) { if (bits(v[i]) == bits(SENT[i])) continue;
@@ -438,28 +444,33 @@ void gv::generate(const std::string& tier, uint64_t seed) {
   }
   stratum("capabilities");
   // (2) values
-  long n = th ? 480 : 36;
+  long n = th ? 480 : 30;
   for (long i = 0; i < n; ++i) {
     double lat1 = r.irange(0, 5) ? r.range(-89, 89) : r.pick(std::vector<double>{0, 90, -90, 45}), lon1 = r.irange(0, 4) ? r.range(-180, 180) : r.pick(std::vector<double>{170, -179, 200, 0, 359});
     double azi = r.irange(0, 5) ? r.range(-180, 180) : r.pick(std::vector<double>{0, 90, 180, -90, 1e-9});
     bool arc = r.coin(); double len = arc ? r.range(-400, 400) : r.range(-3e7, 5e7); if (i % 7 == 0) len = arc ? 1e-7 : 1e-3;
-    const char* kinds[9] = {"G", "X", "E", "R", "IG", "IE", "IX", "S", "IR"};
-    std::string k = kinds[i % 9];
-    int ell = (i / 9) % 4 == 3 ? 1 + int(i / 36) % 3 : 0;           // three quarters on WGS84, the rest on f = 0.02, −0.02, 0
-    if (k[0] == 'I' && k[1] != 'R') {
-      // inverse problems: random, meridional, equatorial, short, nearly antipodal, coincident, polar
-      int kind = int(i / 9) % 7; double la1 = lat1, lo1 = lon1, la2 = r.range(-89, 89), lo2 = r.range(-180, 180);
-      if (kind == 1) lo2 = r.coin() ? lo1 : lo1 + 180; else if (kind == 2) { la1 = la2 = 0; lo2 = lo1 + r.range(-170, 170); }
-      else if (kind == 3) { la2 = la1 + r.range(-1, 1) * 1e-6; lo2 = lo1 + r.range(-1, 1) * 1e-6; } else if (kind == 4) { la2 = -la1 + r.range(-0.5, 0.5); lo2 = lo1 + 180 + r.range(-0.5, 0.5); }
-      else if (kind == 5) { la2 = la1; lo2 = lo1; } else if (kind == 6) { la1 = r.coin() ? 90 : -90; }
-      run("maskvalues", {k + std::to_string(ell), hx(la1), hx(lo1), hx(la2), hx(lo2), "0", std::to_string(i)});
-      stratum("values-" + k + "-" + std::vector<std::string>{"random", "meridional", "equatorial", "short", "antipodal", "coincident", "polar"}[kind]);
-    }
+    const char* kinds[6] = {"G", "X", "E", "R", "S", "IR"};
+    std::string k = kinds[i % 6];
+    int ell = (i / 6) % 4 == 3 ? 1 + int((i / 24 + seed) % 3) : 0;           // three quarters on WGS84, the rest on f = 0.02, −0.02, 0
+    if (false) {}
     else if (k == "IR") { for (const char* q : {"IR", "IS"}) run("maskvalues", {std::string(q) + std::to_string(ell), hx(lat1 * 0.9), hx(lon1), hx(r.range(-85, 85)), hx(r.range(-180, 180)), "0", std::to_string(i)}); stratum("values-IR"); }
     else if (k == "R" || k == "S") { run("maskvalues", {k + std::to_string(ell), hx(lat1 * 0.9), hx(lon1), hx(azi), hx(arc ? r.range(-200, 200) : r.range(-2.5e7, 2.5e7)), arc ? "1" : "0", std::to_string(i)}); stratum("values-" + k); }
     else { run("maskvalues", {k + std::to_string(ell), hx(lat1), hx(lon1), hx(azi), hx(len), arc ? "1" : "0", std::to_string(i)}); stratum("values-" + k + (ell ? "-otherf" : "")); }
     if (i < 3) sample(current_op());
   }
+  // (2b) inverse problems of every kind (the branch GenInverse takes decides how the lengths are obtained), every mask
+  { const char* inv[3] = {"IG", "IE", "IX"}; const char* kn[8] = {"random", "meridional", "equatorial", "short", "antipodal", "coincident", "polar", "meridional-tiny"};
+    int reps = th ? 10 : 1;
+    for (int rep = 0; rep < reps; ++rep) for (int s = 0; s < 3; ++s) for (int kind = 0; kind < 8; ++kind) {
+      int ell = (rep + kind + s) % 5 == 4 ? 1 + (rep + s) % 3 : 0;
+      double la1 = r.irange(0, 5) ? r.range(-89, 89) : r.pick(std::vector<double>{0, 45, -30}), lo1 = r.range(-180, 180), la2 = r.range(-89, 89), lo2 = r.range(-180, 180);
+      if (kind == 1) lo2 = r.coin() ? lo1 : lo1 + 180; else if (kind == 2) { la1 = la2 = 0; lo2 = lo1 + r.range(-170, 170); }
+      else if (kind == 3) { la2 = la1 + r.range(-1, 1) * 1e-6; lo2 = lo1 + r.range(-1, 1) * 1e-6; } else if (kind == 4) { la2 = -la1 + r.range(-0.5, 0.5); lo2 = lo1 + 180 + r.range(-0.5, 0.5); }
+      else if (kind == 5) { la2 = la1; lo2 = lo1; } else if (kind == 6) { la1 = r.coin() ? 90 : -90; }
+      else if (kind == 7) { if (la1 == 0) la1 = 30; la1 = frombits((bits(la1) & ~0xfffULL) | 0x800ULL); la2 = r.coin() ? nextup(la1, r.irange(1, 6)) : nextdn(la1, r.irange(1, 6)); lo2 = lo1; }   // a few ulps apart on one meridian: sig12 below tol0
+      run("maskvalues", {std::string(inv[s]) + std::to_string(ell), hx(la1), hx(lo1), hx(la2), hx(lo2), "0", std::to_string(rep)});
+      stratum(std::string("values-") + inv[s] + "-" + kn[kind]);
+    } }
   // (3) rhumb lines that span more than half / more than a whole turn of longitude (the wrapped and the unrolled
   //     longitude differ there, so an output computed from the wrong one shows up): cheap, so many of them
   long nr = th ? 600 : 60;
